@@ -18,6 +18,9 @@ pub fn slice_copy_to(dst: &mut [u8], n: usize, src: &[u8], a: usize, b: usize)
     requires n <= old(dst)@.len(), a <= b, b <= src@.len(), b - a == n
     ensures final(dst)@ == src@.subrange(a as int, b as int) + old(dst)@.skip(n as int)
 { unimplemented!() }
+// R7: `&buf[..n]` on a byte slice: panics unless n <= len
+#[verifier::external_body]
+pub fn slice_to_u8(b: &[u8], n: usize) -> (r: &[u8]) requires n <= b@.len() ensures r@ == b@.take(n as int) { unimplemented!() }
 // R4: `self.data.write(buf)` is `impl Write for Vec<u8>`.  ASSUMED[io-vec-write]: appends all of buf, returns Ok(buf.len())
 #[verifier::external_body]
 pub fn vec_write(v: &mut Vec<u8>, buf: &[u8]) -> (r: io::Result<usize>)
@@ -97,7 +100,8 @@ impl MemfsFile {
 
 //@ item write file=src/sys/fs/memfs/file.rs block="impl io::Write for MemfsFile" fn=write props=C07,C06,C12
 //@ sig fn write(&mut self, buf: &[u8]) -> io::Result<usize>
-//@ rw R4 * ⟦self.data.write(buf)⟧ => ⟦vec_write(&mut self.data, buf)⟧
+//@ rw R4 * re⟦self\.data\.write\(([^()]*(?:\([^()]*\))?[^()]*)\)⟧ => ⟦vec_write(&mut self.data, \1)⟧
+//@ rw R7 * re⟦&buf\[\.\.([^\]]+)\]⟧ => ⟦slice_to_u8(buf, \1)⟧
     pub fn write(&mut self, buf: &[u8]) -> (r: io::Result<usize>)
         ensures r is Ok, r->Ok_0 == buf@.len(),
                 final(self).data@ == old(self).data@ + buf@,     //@ clause write.appends_all [C07,C06]
